@@ -14,6 +14,13 @@ def _walk(node, typ):
     return [n for n in ast.walk(node) if isinstance(n, typ)]
 
 
+def u_(n):
+    try:
+        return ast.unparse(n)
+    except Exception:
+        return ''
+
+
 def _const(n):
     return n.value if isinstance(n, ast.Constant) else None
 
@@ -159,7 +166,7 @@ def extract(src):
         'sdc_allow_no_origin': False, 'sdc_callback_none': True,
         'token_arg_default': 'csrf_token', 'header_arg_default': 'X-CSRF-Token',
         'sdc_order': -20, 'policy_order': 0, 'view_order': 0,
-        'sdc_positional_order_ok': True, 'view_option_plumbing_ok': True,
+        'sdc_positional_order_ok': True, 'view_option_plumbing_ok': True, 'special_views_opt_out': True,
     }
 
     # ---------------- csrf.py
@@ -408,6 +415,40 @@ def extract(src):
     except Exception as e:
         v['view_option_plumbing_ok'] = False
         problems.append('config/views.py view-option plumbing not recognised: %r' % (e,))
+
+    # ---------------- add_exception_view / add_notfound_view / add_forbidden_view opt out of CSRF checking themselves:
+    # 'require_csrf' is refused as a caller's option, and the settings they build carry require_csrf=False and
+    # exception_only=True and are handed to self.add_view(**..)
+    try:
+        vm = F.Module(src, 'pyramid/config/views.py')
+        ok = True
+        for nm in ('add_exception_view', 'add_notfound_view', 'add_forbidden_view'):
+            f2 = vm.find('ViewsConfiguratorMixin.' + nm)
+            loops = [l for l in _walk(f2, ast.For) if isinstance(l.iter, ast.Tuple)
+                     and all(isinstance(_const(e), str) for e in l.iter.elts)
+                     and 'require_csrf' in [e.value for e in l.iter.elts]
+                     and any(isinstance(n, ast.Raise) for n in ast.walk(l))
+                     and any(isinstance(n, ast.Compare) and isinstance(n.ops[0], ast.In) and isinstance(n.comparators[0], ast.Name)
+                             and n.comparators[0].id == 'view_options' for n in ast.walk(l))]
+            dicts = [c for c in _walk(f2, ast.Call) if isinstance(c.func, ast.Name) and c.func.id == 'dict'
+                     and any(k.arg == 'require_csrf' for k in c.keywords)]
+            good = (len(loops) == 1 and len(dicts) == 1
+                    and all(_const(k.value) is False and isinstance(k.value, ast.Constant) for k in dicts[0].keywords if k.arg == 'require_csrf')
+                    and any(k.arg == 'exception_only' and _const(k.value) is True for k in dicts[0].keywords))
+            rets = [r for r in _walk(f2, ast.Return) if isinstance(r.value, ast.Call) and u_(r.value.func) == 'self.add_view'
+                    and not r.value.args and len(r.value.keywords) == 1 and r.value.keywords[0].arg is None]
+            calls = [c for c in _walk(f2, ast.Call) if u_(c.func) == 'self.add_view']
+            good = good and len(rets) == 1 and len(calls) == 1
+            # nothing may put another require_csrf into the settings afterwards
+            stores = [n for n in _walk(f2, ast.Subscript) if isinstance(n.ctx, ast.Store) and _const(n.slice) == 'require_csrf']
+            ok = ok and good and not stores
+        v['special_views_opt_out'] = bool(ok)
+        if not ok:
+            problems.append('config/views.py: add_exception_view / add_notfound_view / add_forbidden_view no longer refuse '
+                            'require_csrf and register with require_csrf=False, exception_only=True')
+    except Exception as e:
+        v['special_views_opt_out'] = False
+        problems.append('config/views.py special views not recognised: %r' % (e,))
 
     # ---------------- execution order (`order=`) of the directives' actions relative to add_view's
     try:
